@@ -54,6 +54,40 @@ type taskSpec struct {
 	Put              []string `json:"put"`    // per call: "ok" | "err"
 	// origin cluster behaviour: per dependency, per client, per call
 	Replicate map[string][][]string `json:"replicate"` // dep hex -> client idx -> steps
+	// Repush: the same (mutable) tag is pushed again with another digest and
+	// another dependency list while the first task is still queued.
+	Repush *repushSpec `json:"repush,omitempty"`
+}
+
+type repushSpec struct {
+	Digest string   `json:"digest"`
+	Deps   []string `json:"deps"`
+	When   string   `json:"when"` // "delayed": right after the (delayed) first task was added; "after-failure": after its first failed execution
+}
+
+// addRepush turns a case into a re-push case (drawn from its own PRNG stream so
+// that the rest of the case list stays what it was).
+func addRepush(r *rand.Rand, c *caseSpec) {
+	t := &c.Tasks[r.Intn(len(c.Tasks))]
+	if t.RemoteHasAtStart {
+		return
+	}
+	rp := &repushSpec{Digest: hex64(r)}
+	for k := 1 + r.Intn(3); k > 0; k-- {
+		rp.Deps = append(rp.Deps, hex64(r)) // the new image has layers of its own
+	}
+	if len(t.Deps) > 0 && r.Intn(2) == 0 {
+		rp.Deps = append(rp.Deps, t.Deps[r.Intn(len(t.Deps))]) // and may share a base layer
+	}
+	if r.Intn(2) == 0 {
+		rp.When = "delayed"
+		t.DelayMs = 30 + r.Intn(30)
+	} else {
+		rp.When = "after-failure"
+		// the first attempts fail at the remote build-index, the task stays queued
+		t.Put = append([]string{"err", "err", "err"}, t.Put...)
+	}
+	t.Repush = rp
 }
 
 type caseSpec struct {
@@ -519,17 +553,24 @@ func judge(g *rigT) (out []finding, execs int, puts int, nontrivial bool) {
 					add("put-outside-execution", "tag %s: PutAndReplicate observed outside any execution", tag)
 					continue
 				}
+				// what has to be in the remote origin cluster is decided by the
+				// digest actually PUT (per-digest dependency table of the harness),
+				// not by what the task object lists
+				required, known := t.Deps, e.Arg == t.Digest
+				if t.Repush != nil && e.Arg == t.Repush.Digest {
+					required, known = t.Repush.Deps, true
+				}
+				if !known {
+					add("put-with-wrong-digest", "tag %s put with digest %s which was never pushed for it (pushed: %s)", tag, short(e.Arg), short(t.Digest))
+				}
 				var missing []string
-				for _, d := range t.Deps {
+				for _, d := range required {
 					if !cur.okDeps[d] {
 						missing = append(missing, short(d))
 					}
 				}
-				if len(missing) > 0 {
-					add("put-before-dependencies-replicated", "tag %s: PutAndReplicate (event %d) without a successful ReplicateToRemote in the same execution for dependencies %v", tag, e.Seq, missing)
-				}
-				if e.Arg != t.Digest {
-					add("put-with-wrong-digest", "tag %s put with digest %s, task digest %s", tag, short(e.Arg), short(t.Digest))
+				if known && len(missing) > 0 {
+					add("put-before-dependencies-replicated", "tag %s: PutAndReplicate of digest %s (event %d) without a successful ReplicateToRemote in the same execution for its dependencies %v", tag, short(e.Arg), e.Seq, missing)
 				}
 				if cur.originRes == "" || cur.originRes == "err" {
 					add("put-without-remote-origin", "tag %s: PutAndReplicate in an execution whose remote origin lookup had not succeeded", tag)
@@ -615,22 +656,53 @@ func runCase(t *testing.T, dir string, c caseSpec, attempt int) *outcome {
 		return m
 	}
 	m := newManager()
-	for _, ts := range c.Tasks {
-		d, err := core.NewSHA256DigestFromHex(ts.Digest)
+	addTask := func(tag, digest string, depHex []string, dest string, delay time.Duration) {
+		d, err := core.NewSHA256DigestFromHex(digest)
 		if err != nil {
 			t.Fatalf("digest: %v", err)
 		}
 		var deps core.DigestList
-		for _, x := range ts.Deps {
+		for _, x := range depHex {
 			dd, err := core.NewSHA256DigestFromHex(x)
 			if err != nil {
 				t.Fatalf("digest: %v", err)
 			}
 			deps = append(deps, dd)
 		}
-		task := tagreplication.NewTask(ts.Tag, d, deps, ts.Dest, time.Duration(ts.DelayMs)*time.Millisecond)
-		if err := m.Add(task); err != nil {
+		if err := m.Add(tagreplication.NewTask(tag, d, deps, dest, delay)); err != nil {
 			t.Fatalf("add: %v", err)
+		}
+		g.mu.Lock()
+		g.logLocked(event{Kind: "push", Tag: tag, Arg: digest, Result: fmt.Sprintf("%d deps, delay %s", len(depHex), delay)})
+		g.mu.Unlock()
+	}
+	repushed := map[string]bool{}
+	for _, ts := range c.Tasks {
+		addTask(ts.Tag, ts.Digest, ts.Deps, ts.Dest, time.Duration(ts.DelayMs)*time.Millisecond)
+		if ts.Repush != nil && ts.Repush.When == "delayed" {
+			// the tag is pushed again while the delayed task is still queued
+			addTask(ts.Tag, ts.Repush.Digest, ts.Repush.Deps, ts.Dest, 0)
+			repushed[ts.Tag] = true
+		}
+	}
+	repushAfterFailure := func() {
+		for _, ts := range c.Tasks {
+			if ts.Repush == nil || ts.Repush.When != "after-failure" || repushed[ts.Tag] {
+				continue
+			}
+			g.mu.Lock()
+			failedOnce := false
+			for _, e := range g.events {
+				if e.Kind == "exec_end" && e.Tag == ts.Tag && e.Result != "ok" {
+					failedOnce = true
+				}
+			}
+			done := g.remote[ts.Tag]
+			g.mu.Unlock()
+			if failedOnce && !done {
+				addTask(ts.Tag, ts.Repush.Digest, ts.Repush.Deps, ts.Dest, 0)
+				repushed[ts.Tag] = true
+			}
 		}
 	}
 	o := &outcome{spec: c}
@@ -686,6 +758,7 @@ func runCase(t *testing.T, dir string, c caseSpec, attempt int) *outcome {
 	deadline := time.Now().Add(90 * time.Second)
 	lastStoreCheck := time.Now()
 	for !allDone() {
+		repushAfterFailure()
 		if time.Since(lastStoreCheck) > 150*time.Millisecond {
 			lastStoreCheck = time.Now()
 			if dropped() {
@@ -748,10 +821,14 @@ func TestC33(t *testing.T) {
 	run.Assume("the retry manager has no clock seam: it runs on real time with 1-3 ms intervals; progress bounds (watchdog 90 s per case) are inconclusive, never violations")
 
 	r := run.Rand("cases")
+	rrp := run.Rand("repush")
 	n := run.N(500, 10000)
 	cases := make([]caseSpec, n)
 	for i := range cases {
 		cases[i] = genCase(r, i)
+		if rrp.Intn(5) == 0 {
+			addRepush(rrp, &cases[i])
+		}
 	}
 	dir := ev.TempDir(t, "c33-")
 	const workers = 16
@@ -793,6 +870,16 @@ func TestC33(t *testing.T) {
 		run.Count("put_events", int64(o.puts))
 		run.Count("events", int64(len(o.events)))
 		run.Count("tasks", int64(len(o.spec.Tasks)))
+		for _, e := range o.events {
+			if e.Kind == "push" {
+				run.Count("pushes", 1)
+			}
+		}
+		for _, ts := range o.spec.Tasks {
+			if ts.Repush != nil {
+				run.Count("cases_with_repush_of_a_queued_tag_"+ts.Repush.When, 1)
+			}
+		}
 		if o.restarted {
 			run.Count("manager_restarts", 1)
 		}
